@@ -121,6 +121,8 @@ type RequestSpec struct {
 	CancelAfter     int                   `json:"cancel_after,omitempty"` // cancel the request after this many data messages (0: never)
 	FinalBlocksOnly bool                  `json:"final_only,omitempty"`
 	SnapshotStores  bool                  `json:"-"` // record store content after every linear block
+	// LinearFeed, when set, replaces the fork-free block source of the tier1 linear phase.
+	LinearFeed func(ctx context.Context, h bstream.Handler, start, stop uint64, cursor string) error `json:"-"`
 	StuckAfter      time.Duration         `json:"-"` // no job in flight and no data message for this long => stuck (default 20s)
 	Debug           []string              `json:"-"`
 }
@@ -283,7 +285,17 @@ func (s *linearStream) Run(ctx context.Context) error {
 	return fmt.Errorf("chain head %d reached before stop block %d", s.rs.cl.Head, s.stop)
 }
 
+type feedStream struct {
+	f func(ctx context.Context) error
+}
+
+func (s *feedStream) Run(ctx context.Context) error { return s.f(ctx) }
+
 func (rs *runState) tier1StreamFactory(ctx context.Context, h bstream.Handler, startBlockNum int64, stopBlockNum uint64, cursor string, finalBlocksOnly bool, cursorIsTarget bool, logger *zap.Logger, extraOpts ...stream.Option) (service.Streamable, error) {
+	if rs.spec.LinearFeed != nil {
+		feed := rs.spec.LinearFeed
+		return &feedStream{f: func(ctx context.Context) error { return feed(ctx, h, uint64(startBlockNum), stopBlockNum, cursor) }}, nil
+	}
 	return &linearStream{rs: rs, h: h, start: uint64(startBlockNum), stop: stopBlockNum, final: rs.spec.Final, tier1: true, cursor: cursor}, nil
 }
 
